@@ -13,8 +13,8 @@ CLASSES = {
 }
 # (cfg, simulate, depth)
 RUNS = {
-    ("C01", "quick"): [("MC_Router_c01quick.cfg", None, None)],
-    ("C01", "thorough"): [("MC_Router_c01thorough.cfg", None, None), ("MC_Router_c01three.cfg", None, None)],
+    ("C01", "quick"): [("MC_Router_c01quick.cfg", None, None), ("MC_Router_c01orders.cfg", None, None)],
+    ("C01", "thorough"): [("MC_Router_c01thorough.cfg", None, None), ("MC_Router_c01three.cfg", None, None), ("MC_Router_c01orders.cfg", None, None)],
     ("C02", "quick"): [("MC_Router_c02quick.cfg", None, None), ("MC_Router_c02paths.cfg", None, None), ("MC_Router_c02sim.cfg", 30, 11)],
     ("C02", "thorough"): [("MC_Router_c02quick.cfg", None, None), ("MC_Router_c02paths.cfg", None, None), ("MC_Router_c02thorough.cfg", None, None), ("MC_Router_c02sim.cfg", 400, 11)],
     ("C17", "quick"): [("MC_Router_c01quick.cfg", None, None), ("MC_Router_c02quick.cfg", None, None)],
